@@ -58,14 +58,15 @@ type SearchResult struct {
 	Digest       string   `json:"digest,omitempty"`
 	Panic        string   `json:"panic,omitempty"`
 	PanicStack   string   `json:"panic_stack,omitempty"`
-	AbortPoll    int      `json:"abort_poll,omitempty"`  // first poll at which the abort condition was visible
-	PollsAfter   int      `json:"polls_after,omitempty"` // polls executed from then until return
-	MaxNodesSeen int      `json:"max_nodes_seen"`        // largest Counters.Nodes observed at any poll
-	Overspend    string   `json:"overspend,omitempty"`   // first observation of Counters.Nodes > hard budget
-	Capped       bool     `json:"capped,omitempty"`      // harness safety cap closed the stop channel
-	SimElapsedUS int64    `json:"sim_elapsed_us"`        // fake time covered by this search
-	BoardDiff    string   `json:"board_diff,omitempty"`  // non-empty: board differs after Go
-	IterBounds   []int    `json:"-"`                     // poll index at which each info line was written
+	AbortPoll    int      `json:"abort_poll,omitempty"`   // first poll at which the abort condition was visible
+	PollsAfter   int      `json:"polls_after,omitempty"`  // polls executed from then until return
+	MaxNodesSeen int      `json:"max_nodes_seen"`         // largest Counters.Nodes observed at any poll
+	Overspend    string   `json:"overspend,omitempty"`    // first observation of Counters.Nodes > hard budget
+	Capped       bool     `json:"capped,omitempty"`       // harness safety cap closed the stop channel
+	SimElapsedUS int64    `json:"sim_elapsed_us"`         // fake time covered by this search
+	BoardDiff    string   `json:"board_diff,omitempty"`   // non-empty: board differs after Go
+	Interference string   `json:"interference,omitempty"` // non-empty: the board changed while this search was parked and others ran
+	IterBounds   []int    `json:"-"`                      // poll index at which each info line was written
 	lineNodes    []int    // Counters.Nodes when each line was written
 }
 
@@ -84,16 +85,18 @@ type livenessAbort struct{ detail string }
 // agent is the simulator's handle on one running search: it is driven from
 // the yield hook at the top of every abort poll.
 type agent struct {
-	req     Request
-	sched   Sched
-	qi      int
-	qleft   int
-	coop    *coop
-	stop    chan struct{}
-	closed  bool
-	hitCh   chan time.Time
-	hit     bool
-	extStop bool // the stop channel belongs to somebody else (the UCI driver)
+	req          Request
+	sched        Sched
+	qi           int
+	qleft        int
+	coop         *coop
+	stop         chan struct{}
+	closed       bool
+	hitCh        chan time.Time
+	hit          bool
+	extStop      bool // the stop channel belongs to somebody else (the UCI driver)
+	board        *board.Board
+	interference string
 
 	polls     int
 	abortPoll int
@@ -205,8 +208,19 @@ func (a *agent) poll(s *search.Search, o *search.Options) {
 				time.Sleep(time.Duration(q.CostUS) * time.Microsecond)
 			}
 			if a.coop != nil {
+				// while this engine is parked others run: its position object must
+				// not change under it
+				var snap board.VerifSnapshot
+				if a.board != nil {
+					snap = a.board.VerifSnapshot()
+				}
 				a.coop.toSched <- struct{}{}
 				<-a.coop.resume
+				if a.board != nil && a.interference == "" {
+					if ok, what := snapshotsEqual(snap, a.board.VerifSnapshot()); !ok {
+						a.interference = fmt.Sprintf("the position object of a parked search changed while another engine instance ran (%s, at poll %d)", what, a.polls)
+					}
+				}
 			}
 			a.qi++
 			a.qleft = max(1, a.sched.Quanta[a.qi%len(a.sched.Quanta)].Polls)
@@ -246,6 +260,9 @@ func engineDigest(s *search.Search) string {
 // uses simulated time. A panic in the search is captured, not propagated.
 func runGo(s *search.Search, b *board.Board, req Request, sched Sched, co *coop, extra func(*agent, *search.Search, *search.Options)) (res SearchResult) {
 	a := &agent{req: req, sched: sched, coop: co, stop: make(chan struct{}), pollCap: pollCap, onPoll: extra}
+	if co != nil {
+		a.board = b
+	}
 	if len(sched.Quanta) > 0 {
 		a.qleft = max(1, sched.Quanta[0].Polls)
 	}
@@ -309,6 +326,7 @@ func runGo(s *search.Search, b *board.Board, req Request, sched Sched, co *coop,
 	res.MaxNodesSeen = a.maxNodes
 	res.Overspend = a.overspend
 	res.Capped = a.capped
+	res.Interference = a.interference
 	if a.lines.torn != "" && res.Panic == "" {
 		// a report that is not exactly one newline-terminated line; recorded for C07/C13 use
 		res.Lines = append(res.Lines, "")
